@@ -67,6 +67,10 @@ impl Prop for C07 {
             for k in 0..n {
                 let case_k = format!("effects|{} fault=Err@{}", show(&text), k);
                 compare_run(ast, &text, &world, Fault::Err, k, &key, &case_k, out);
+                if k % 2 == 1 {
+                    let case_n = format!("effects|{} fault=ErrNested@{}", show(&text), k);
+                    compare_run(ast, &text, &world, Fault::ErrNested, k, &key, &case_n, out);
+                }
                 out.count("transitions", 1);
             }
             out.count("states", 1);
